@@ -65,6 +65,10 @@ class Fn:
                 return env[c]
             if c in self.consts:
                 return fhex(self.consts[c]), "float"
+            if c == "np.pi":
+                import math
+
+                return fhex(math.pi), "float"
             if isinstance(e, ast.Attribute):
                 return self.attribute(e, env)
             raise Unsupported(f"unknown name {c}")
@@ -95,6 +99,10 @@ class Fn:
                     raise Unsupported(f"integer operator {type(e.op).__name__}")
                 return f"({a} {op} {b})", "Z"
             if {ta, tb} <= {"Z", "float"}:
+                if isinstance(e.op, ast.Mod):
+                    fa = a if ta == "float" else f"(f_of_Z {a})"
+                    fb = b if tb == "float" else f"(f_of_Z {b})"
+                    return f"(f_pymod {fa} {fb})", "float"  # Python's float %: sign of the divisor
                 op = {ast.Add: "+", ast.Sub: "-", ast.Mult: "*", ast.Div: "/"}.get(type(e.op))
                 if op is None:
                     raise Unsupported(f"float operator {type(e.op).__name__}")
@@ -274,7 +282,13 @@ class Fn:
             return nxt(env)
         if isinstance(s, ast.Return):
             if getattr(self, "loops", None):
-                raise Unsupported("return inside a loop")
+                if len(self.loops[-1]) < 3 or s.value is None:
+                    raise Unsupported("return inside a loop that also carries variables")
+                a, ta = self.expr(s.value, env)
+                want = self.spec["ret"][4:] if self.spec["ret"].startswith("res ") else self.spec["ret"]
+                if COQTY.get(ta, ta) != want:
+                    raise Unsupported(f"return of {ta}, expected {want}")
+                return f"Some {a}"
             if s.value is None:
                 return self.wrap("tt")
             a, ta = self.expr(s.value, env)
@@ -291,6 +305,19 @@ class Fn:
             if t not in ERR:
                 raise Unsupported(f"raise of {t}")
             return f"Err {ERR[t]}"
+        if (
+            isinstance(s, ast.Assign)
+            and len(s.targets) == 1
+            and isinstance(s.targets[0], ast.Attribute)
+            and ast.unparse(s.targets[0]) == self.spec.get("result_attr")
+            and not tail
+            and rest is None
+        ):
+            # a setter: the function's value is the new value of that attribute
+            a, ta = self.expr(s.value, env)
+            if COQTY.get(ta, ta) != self.spec["ret"]:
+                raise Unsupported(f"attribute set to a {ta}, expected {self.spec['ret']}")
+            return a
         if isinstance(s, ast.Assign) and len(s.targets) == 1 and isinstance(s.targets[0], ast.Name):
             a, ta = self.expr(s.value, env)
             if ta == "str":
@@ -391,6 +418,10 @@ SPECS = [
          params={"self.rise_time": ("rise_time", "Z"), "self.eom_config.custom_buffer_time": ("custom_buffer_time", "optZ")}),
     dict(file="pulser-core/pulser/sequence/_schedule.py", qual="_Schedule._check_duration", coq="gen_check_duration", ret="res unit",
          params={"self.max_duration": ("max_duration", "optZ"), "t": ("t", "Z"), "block_over_max_duration": ("block_over_max_duration", "bool")}),
+    dict(file="pulser-core/pulser/sequence/_basis_ref.py", qual="_QubitRef.update_last_used", coq="gen_update_last_used", ret="Z",
+         result_attr="self.last_used", params={"self.last_used": ("last_used", "Z"), "new_t": ("new_t", "Z")}),
+    dict(file="pulser-core/pulser/sequence/_basis_ref.py", qual="_PhaseTracker._format", coq="gen_phase_format", ret="float",
+         params={"phi": ("phi", "float")}),
     dict(file="pulser-core/pulser/sequence/_schedule.py", qual="_PhaseDriftParams.calc_phase_drift", coq="gen_calc_phase_drift", ret="float",
          params={"self.drift_rate": ("drift_rate", "float"), "self.ti": ("ti", "Z"), "tf": ("tf", "Z")}),
 ]
@@ -514,6 +545,19 @@ class LoopFn(Fn):
             b = self.truth(kws["in_eom_mode"], env)
             p = self.var("p")
             return f"(match s_kind {o} with KPulse {p} => pfall {b} {p} | _ => 0 end)", "Z"
+        # slot.type == "target"
+        if isinstance(e, ast.Compare) and len(e.ops) == 1 and isinstance(e.ops[0], ast.Eq) and isinstance(e.comparators[0], ast.Constant) and isinstance(e.comparators[0].value, str):
+            o, to = self.expr(e.left, env)
+            if to == "slottype" and e.comparators[0].value == "target":
+                return f"(is_target {o})", "bool"
+            raise Unsupported("comparison with a string other than slot.type == 'target'")
+        # self.is_detuned_delay(slot.type)
+        if isinstance(e, ast.Call) and isinstance(e.func, ast.Attribute) and e.func.attr == "is_detuned_delay" and len(e.args) == 1 and not e.keywords:
+            o, to = self.expr(e.args[0], env)
+            if to != "slottype":
+                raise Unsupported("is_detuned_delay of something other than a slot's type")
+            p_ = self.var("p")
+            return f"(match s_kind {o} with KPulse {p_} => p_dd {p_} | _ => false end)", "bool"
         # ch_schedule.in_eom_mode() / self[ch].in_eom_mode()
         if isinstance(e, ast.Call) and isinstance(e.func, ast.Attribute) and e.func.attr == "in_eom_mode" and not e.args and not e.keywords:
             o, to = self.expr(e.func.value, env)
@@ -598,6 +642,29 @@ class LoopFn(Fn):
         else:
             raise Unsupported(f"iteration over {ast.unparse(it)}")
         carried = [x for x in self.assigned(s.body) if x in env]
+        if any(isinstance(m, ast.Return) for n in s.body for m in ast.walk(n)):
+            # a search loop: `return x` inside, nothing carried; the Fixpoint returns an option
+            if carried or idx:
+                raise Unsupported("return inside a loop that also carries variables")
+            seen = []
+            for py, (cq, ty) in self.spec["params"].items():
+                if cq not in [c for c, _ in seen]:
+                    seen.append((cq, ty))
+            self.nloops = getattr(self, "nloops", 0) + 1
+            name = f"{self.spec['coq']}_loop{self.nloops}"
+            self.loops.append((lambda e2: "None", lambda e2: f"({name} {' '.join(c for c, _ in seen)} {rest_l})", "search"))
+            saved_elems = getattr(self, "elems", [])
+            self.elems = saved_elems + [(el, elty)]
+            body = self.block(s.body, env_l, None)
+            self.loops.pop()
+            self.elems = saved_elems
+            want = self.spec["ret"][4:] if self.spec["ret"].startswith("res ") else self.spec["ret"]
+            self.aux.append(
+                f"Fixpoint {name} {' '.join(f'({c} : {COQTY[t]})' for c, t in seen)} ({lst} : list {COQTY[elty]}) {{struct {lst}}} : option {want} :=\n"
+                f"  match {lst} with\n  | nil => None\n  | cons {el} {rest_l} =>\n  {body}\n  end.\n"
+            )
+            v = self.var("found")
+            return f"match ({name} {' '.join(c for c, _ in seen)} {src}) with\n  | Some {v} => {self.wrap(v)}\n  | None => {nxt(env)}\n  end"
         if idx:
             carried = [idx] + carried
             env_l[idx] = (idx, "Z")
@@ -658,6 +725,10 @@ class LoopFn(Fn):
 
 
 LOOP_SPECS = [
+    dict(file="pulser-core/pulser/sequence/_schedule.py", qual="_ChannelSchedule.last_target", coq="gen_last_target", ret="Z",
+         params={"self.slots[::-1]": ("slots", "listslot")}),
+    dict(file="pulser-core/pulser/sequence/_schedule.py", qual="_ChannelSchedule.last_pulse_slot", coq="gen_last_pulse_slot", ret="res slot",
+         params={"self.slots[::-1]": ("slots", "listslot"), "ignore_detuned_delay": ("ignore_detuned_delay", "bool")}),
     dict(file="pulser-core/pulser/sequence/_schedule.py", qual="_ChannelSchedule.get_duration", coq="gen_get_duration", ret="Z",
          params={"self.slots[::-1]": ("slots", "listslot"), "self.channel_obj.rise_time": ("rise_time", "Z"),
                  "self.in_eom_mode()": ("in_eom_mode", "bool"), "include_fall_time": ("include_fall_time", "bool")}),
